@@ -121,6 +121,15 @@ package nodes
 //@   stream 1 step IN key: stepErr == nil ==> len(L3_key) == len(g.keyExprs) && forall(j, 0, len(g.keyExprs), same(L3_key[j], evalVal(g.keyExprs[j], L3_ctx)))
 //@   stream 1 step INM forward: stepErr == nil ==> len(OUTM) == old(len(OUTM)) + 1 && lastOutM() == lastInM() && len(OUT) == old(len(OUT))
 //@   ensures errprop: runErr != nil ==> result != nil
+//@   ensures flush: result == nil ==> !produceFailed()
+//@   ensures everygroup: result == nil ==> forallK(k, has(aggregates, k) ==> visited(k))
+// The final pass (a function literal that guards hashmap.Each with a recover for its own stop signal): while it runs
+// no produce has failed and err is nil; each visit produces one record; a failing produce stores the error in err and
+// leaves the pass.
+//@ func (*SimpleGroupBy).Run$lit5
+//@   inline
+//@   ascend 1 invariant clean: err == nil && !produceFailed()
+//@   ascend 1 step row: len(OUT) == old(len(OUT)) + 1 && visited(lastkey())
 //@ func (*SimpleGroupBy).Run$lit3
 //@   loop 1 invariant keys: len(key) == len(g.keyExprs) && forall(j, 0, $k, same(key[j], evalVal(g.keyExprs[j], ctx)))
 //@   loop 3 step nullskip: aggregateInput.TypeID == 0 ==> itemTyped.AggregatedSetSize[i] == old(itemTyped.AggregatedSetSize[now(i)]) && calls(Add) == old(calls(Add))
